@@ -1,6 +1,8 @@
 package vk
 
 import (
+	"reflect"
+	"unsafe"
 	"context"
 	"fmt"
 	"sync"
@@ -138,6 +140,7 @@ func (n *Node) Stop() {
 		n.cancel()
 		n.cancel = nil
 	}
+	n.StopTimer()
 }
 
 // Drain runs the event loop until it is empty; a panic is recovered and returned.
@@ -155,8 +158,32 @@ func (n *Node) Drain(max int) (handled int, pan any, stack string) {
 	return
 }
 
+// StopTimer stops the synchronizer's pending view timer. The harness fires timeouts itself (TimeoutEvent) and
+// OnLocalTimeout replaces the timer without stopping the old one - which in production has just fired, but here would
+// stay pending for an hour and keep the whole replica reachable (memory growth over hundreds of thousands of cases).
+func (n *Node) StopTimer() {
+	v := reflect.ValueOf(n.Sync)
+	if v.Kind() != reflect.Ptr || v.IsNil() {
+		return
+	}
+	f := v.Elem().FieldByName("timer")
+	if !f.IsValid() || f.Kind() != reflect.Struct {
+		return
+	}
+	t := f.FieldByName("timerDoNotUse")
+	if !t.IsValid() || t.Kind() != reflect.Ptr || t.IsNil() {
+		return
+	}
+	if tm, ok := reflect.NewAt(t.Type(), unsafe.Pointer(t.UnsafeAddr())).Elem().Interface().(*time.Timer); ok && tm != nil {
+		tm.Stop()
+	}
+}
+
 // Deliver adds an event and drains.
 func (n *Node) Deliver(ev any, max int) (pan any, site string) {
+	if _, ok := ev.(hotstuff.TimeoutEvent); ok {
+		n.StopTimer()
+	}
 	func() {
 		defer func() {
 			if e := recover(); e != nil {
